@@ -56,6 +56,16 @@ contraction by contraction, so it is the denotation over the segmented shells -/
 def gden (cv : Cv) (gs : List GShell) (coeffs : List Int) (κ : PKey) : Int :=
   den cv (segmentAll gs) coeffs κ
 
+/-! ### variant selection (the flags come from `Iodata/Gen/Wf.lean`, read off the real writers) -/
+
+/-- Molden `[MO]` rows: following the sorted `[GTO]` shells (now) or in object order (before f1785bb) -/
+def moldenVariant (rowsFollowSort : Bool) : Cv → Cv → List Shell → List Int → List Shell × List Int :=
+  if rowsFollowSort then moldenDumpSorted else moldenDump
+
+/-- Molekel `$BASIS`/rows: sorted with one `$$` per centre passed (now) or one `$$` per change (before 2b71ddf) -/
+def mklVariant (perCentre : Bool) : Cv → Cv → List Shell → List Int → List Shell × List Int :=
+  if perCentre then moldenDumpSorted else mklDump
+
 /-! ### (f) Molden -/
 
 /-- the pure/Cartesian header tags -/
@@ -247,6 +257,11 @@ def allSome {α : Type} : List (Option α) → Option (List α)
   | none :: _ => none
   | some a :: r => (allSome r).map (a :: ·)
 
+/-- `sp_coeffs`: the second contraction of SP shells, zeros for the other shells -/
+def fchkC2 (gs : List GShell) : List Int :=
+  gs.flatMap fun g =>
+    if fchkType g = some (-1) then g.prims.map fun p => p.2.getD 1 0 else List.replicate g.prims.length 0
+
 def fchkWriteBasis (gs : List GShell) : Option FchkBasis :=
   match allSome (gs.map fchkType) with
   | none => none
@@ -256,10 +271,7 @@ def fchkWriteBasis (gs : List GShell) : Option FchkBasis :=
            atomMap := gs.map (·.center + 1)
            exps := gs.flatMap fun g => g.prims.map (·.1)
            c1 := gs.flatMap fun g => g.prims.map fun p => p.2.getD 0 0
-           c2 := if types.contains (-1) then
-               some ((gs.zip types).flatMap fun gt =>
-                 if gt.2 = -1 then gt.1.prims.map fun p => p.2.getD 1 0 else List.replicate gt.1.prims.length 0)
-             else none }
+           c2 := if types.contains (-1) then some (fchkC2 gs) else none }
 
 /-- one shell of `load_one` part B; the arrays are consumed as `counter` advances -/
 def fchkShell (t : Int) (a n : Nat) (ex : List Nat) (c1 c2 : List Int) : GShell :=
